@@ -106,11 +106,11 @@ def emit_text(it, fname, mkargs):
     return good[0].state['out'].render()
 
 
-def shape(it, mem='defined', table='defined', nglobals=1, gimports=1, data=('active',), elems=1, start=True, shared=False):
+def shape(it, mem='defined', table='defined', nglobals=1, gimports=1, data=('active',), elems=1, start=True, shared=False, limits=(1, 4)):
     types = [([], []), (['i32', 'i64'], ['i32'])]
     fimp = [('env', 'imp0', 0)]
     funcs = [0, 1, 0]
-    memories = [(1, 4, shared)] if mem == 'defined' else []
+    memories = [(limits[0], limits[1], shared)] if mem == 'defined' else []
     mimports = [('env', 'memory', 1, 4, shared)] if mem == 'imported' else []
     tables = [(4, 8, False)] if table == 'defined' else []
     timports = [('env', 'table', 4, 8, False)] if table == 'imported' else []
@@ -309,22 +309,25 @@ def check_common_record(chk, tus, rule):
     return len(names)
 
 
-def shared_inheritance(chk, f3, rule):
-    ok = re.search(r'if\s*\(parent\s*==\s*NULL\)\s*\{\s*i->m0\s*=\s*WASM_MEMORY_ALLOCATE_SHARED\(1,\s*4\)\s*;\s*\}\s*else\s*\{\s*i->m0\s*=\s*parent->m0\s*;\s*\}', f3)
-    chk.expect(ok is not None, rule, 'shared-memory-inherited',
-               'a shared memory is initialised by %r; expected allocation for the root instance and the parent\'s descriptor itself (i->m0 = '
-               'parent->m0) for children: all threads must grow one page counter under one mutex' % f3.strip(),
-               'wasmCWriteInitMemories:shared')
+def shared_inheritance(chk, f3, rule, tag='', limits=(1, 4)):
+    ok = re.search(r'if\s*\(parent\s*==\s*NULL\)\s*\{\s*i->m0\s*=\s*WASM_MEMORY_ALLOCATE_SHARED\(%d,\s*%d\)\s*;\s*\}\s*else\s*\{\s*i->m0\s*=\s*parent->m0\s*;\s*\}'
+                   % limits, f3)
+    chk.expect(ok is not None, rule, 'shared-memory-inherited' + tag,
+               'a shared memory with limits %d..%d is initialised by %r; expected allocation (of these limits) for the root instance and the parent\'s '
+               'descriptor itself (i->m0 = parent->m0) for children: all threads must see one memory, and grow one page counter under one mutex'
+               % (limits[0], limits[1], f3.strip()), 'wasmCWriteInitMemories:shared')
 
 
 def check_shared_descriptor(chk, tus, rule):
     """shared with C18: instances created for threads (NewChild -> InitMemories(child, parent)) alias the parent's descriptor of a
     module-defined shared memory"""
     it = make(tus)
-    mk3 = shape(it, mem='defined', table='none', nglobals=0, gimports=0, data=(), elems=0, start=False, shared=True)
-    fns = split_functions(inits_text(it, mk3))
-    chk.require('modInitMemories' in fns and 'modNewChild' in fns, 'InitMemories/NewChild not emitted for a shared memory')
-    shared_inheritance(chk, fns['modInitMemories'], rule)
+    # whatever the limits of the shared memory are - a fixed-size memory (min == max) is shared between the threads all the same
+    for limits in ((1, 4), (1, 1), (0, 0), (2, 65536)):
+        mk3 = shape(it, mem='defined', table='none', nglobals=0, gimports=0, data=(), elems=0, start=False, shared=True, limits=limits)
+        fns = split_functions(inits_text(it, mk3))
+        chk.require('modInitMemories' in fns and 'modNewChild' in fns, 'InitMemories/NewChild not emitted for a shared memory')
+        shared_inheritance(chk, fns['modInitMemories'], rule, tag='' if limits == (1, 4) else '[limits %d..%d]' % limits, limits=limits)
     got = re.findall(r'\bmodInitMemories\s*\(\s*(\w+)\s*,\s*(\w+)\s*\)', fns['modNewChild'])
     chk.expect(got == [('child', 'self')], rule, 'newchild-passes-parent',
                'NewChild initialises the memories with %r; expected InitMemories(child, self) so that the child inherits from its creator' % (got,),
